@@ -178,7 +178,7 @@ PROPS = {
                     {"name": "server", "n": {"quick": 60, "thorough": 800}, "profiles": ["debug", "release"], "oracle": "oracle_C07", "shard": 20},
                     {"name": "handler", "n": {"quick": 400, "thorough": 10000}, "profiles": ["debug"], "oracle": "oracle_C14", "shard": 50},
                     {"name": "node", "n": {"quick": 300, "thorough": 4000}, "profiles": ["debug", "release"], "oracle": "oracle_C08", "shard": 25},
-                    {"name": "connhandler", "n": {"quick": 300, "thorough": 8000}, "profiles": ["debug", "release"], "oracle": "oracle", "shard": 100}],
+                    {"name": "connhandler", "n": {"quick": 300, "thorough": 8000}, "profiles": ["debug"], "oracle": "oracle", "shard": 100}],
         "rule": "engine connhandler: see C14 (no panic of the whole handler). engines codec (mutated / structured / exhaustive short frames, prefixes of every varint length, non-canonical encodings), prefix (all strings of <= 4/5 "
                 "bytes over a 10-byte boundary alphabet, structured prefixes), incoming (adversarial message values), client and server (behaviours under arbitrary "
                 "op sequences), handler (client handler under arbitrary scripted I/O) — in the overflow-checked (debug) AND the release profile; in release every decode of a "
